@@ -117,6 +117,9 @@ func c15Parse(c *core.Case, o *core.Outcome) {
 		if r.IntN(3) == 0 {
 			defParams = map[string]string{"VDEF": "d", "SHARED": "default"}
 		}
+		if r.IntN(3) == 0 {
+			defFields["jitter"] = pick(r, "0", "40", "75")
+		}
 		inherited, modes := 0, map[string]bool{}
 		for k := 0; k < ns; k++ {
 			st := c15Stage{fields: map[string]string{}, atStage: map[string]bool{}}
@@ -186,8 +189,17 @@ func c15Parse(c *core.Case, o *core.Outcome) {
 					inherited++
 				}
 			}
-			if st.mode != "users" && r.IntN(2) == 0 {
-				put("jitter", "0")
+			if st.mode != "users" {
+				// jitter: an explicit 0 at stage level must win over a non-zero default
+				if r.IntN(2) == 0 {
+					st.fields["jitter"] = "0"
+					st.atStage["jitter"] = true
+				} else if dv, ok := defFields["jitter"]; ok {
+					st.fields["jitter"] = dv
+					inherited++
+				} else {
+					st.fields["jitter"] = "0" // neither level sets it: defaults to 0
+				}
 			}
 			// a field of the ramp that conflicts with an inherited default must stay coherent: ramps need same unit
 			if st.mode == "ramp" {
@@ -390,6 +402,14 @@ func c15Parse(c *core.Case, o *core.Outcome) {
 				return
 			}
 			t0 := time.Unix(1_750_000_000, 0)
+			if st.fields["jitter"] != "0" {
+				// jittered values are random: only callable and non-negative
+				if v := got.Rate(t0); v < 0 {
+					fail("stage %d with jitter %s evaluates to %d", k, st.fields["jitter"], v)
+					return
+				}
+				continue
+			}
 			switch st.mode {
 			case "constant":
 				var n int
@@ -434,6 +454,16 @@ func c15Parse(c *core.Case, o *core.Outcome) {
 				if v := got.Rate(t0); v != a {
 					fail("ramp stage %d starts at %d, expected start-rate %d", k, v, a)
 					return
+				}
+				var b int
+				fmt.Sscanf(st.fields["end-rate"], "%d/", &b)
+				for q := 1; q <= 4; q++ {
+					off := st.dur * time.Duration(q) / 5
+					want := float64(a) + float64(off)/float64(st.dur)*float64(b-a)
+					if v := got.Rate(t0.Add(off)); float64(v) > want+1 || float64(v) < want-1 {
+						fail("ramp stage %d (jitter 0) at %v evaluates to %d, the line from %d to %d gives %.2f", k, off, v, a, b, want)
+						return
+					}
 				}
 			case "gaussian":
 				if v := got.Rate(t0); v < 0 {
